@@ -16,3 +16,4 @@ import Verif.Properties.C04
 #print axioms C01.cert_sound
 #print axioms C02.canonical_sound
 #print axioms C03.uniqify_fresh
+#print axioms C04.moved_pointers_leave_the_plan
